@@ -532,6 +532,7 @@ def run_scenario(ctx, case, label):
                                      quals=list(a.query_qualities) if a.query_qualities is not None else None, asis=ASIS))
             outs = ctx.model.ask_many(reqs)
             per_aln = {}
+            per_aln_model = {}
             groups = {}
             order = []
             for a, m in zip(alns, outs):
@@ -544,6 +545,7 @@ def run_scenario(ctx, case, label):
                                                         "reference": case["ref"] if mode == "ref" else None}, impl, mm)
                 det = [[vjson[i][0], al, q] for i, al, q in (impl["out"] or [])]
                 per_aln[(a.query_name, a.is_read2)] = {p: al for p, al, _ in det}
+                per_aln_model[(a.query_name, a.is_read2)] = {vjson[i][0]: al for i, al, q in (mm["out"] or [])}
                 if det:
                     if a.query_name not in groups:
                         order.append(a.query_name)
@@ -559,7 +561,7 @@ def run_scenario(ctx, case, label):
             valid = None
             if mode == "noref":
                 valid = set(impl_normalize(vjson)["valid"])
-            oracle(ctx, case, label, mode, hv, listed, by_name, got, per_aln, valid)
+            oracle(ctx, case, label, mode, hv, listed, by_name, got, per_aln, valid, per_aln_model)
     finally:
         shutil.rmtree(d, ignore_errors=True)
 
@@ -584,7 +586,7 @@ def impl_detect(mode, vlist, aln, reference):
     return {"out": out, "err": err}
 
 
-def oracle(ctx, case, label, mode, hv, listed, by_name, got, per_aln, valid=None):
+def oracle(ctx, case, label, mode, hv, listed, by_name, got, per_aln, valid=None, per_aln_model=None):
     vidx = {i: n for n, (i, _) in enumerate(listed)}     # index into the VCF variant list
     for name, mates in by_name.items():
         rec = {p: a for p, a, _ in got.get(name, [])}
@@ -665,7 +667,15 @@ def oracle(ctx, case, label, mode, hv, listed, by_name, got, per_aln, valid=None
             if mode == "noref" and not demanded_noref:
                 ctx.observe(f"noref: wrong allele for {v.kind}{' (shiftable)' if v.shiftable else ''} (not claimed without a reference)")
                 continue
-            if mode == "ref" and not isolated:
+            # F11 is the behaviour of the window re-alignment *as specified* (the Lean model of the unchanged algorithm gives
+            # the same wrong allele for this alignment); a wrong allele the algorithm's model does not give is a new failure
+            inherent = per_aln_model is None or any(
+                per_aln_model.get((name, m["mate"] == 1), {}).get(v.pos) == g for m in mates if m["truth"][i]["full"])
+            if mode == "ref" and not isolated and not inherent:
+                ctx.fail(f"ref: WRONG allele {g} (carried: {a}) for {v!r} on an error-free, fully covering read; the window "
+                         f"re-alignment as modelled gives {[per_aln_model.get((name, m['mate'] == 1), {}).get(v.pos) for m in mates]} "
+                         f"here, so this is not the known limitation F11", where(), key="wrong-allele-ref-close-not-inherent")
+            elif mode == "ref" and not isolated:
                 ctx.fail(f"ref: WRONG allele {g} (carried: {a}) for {v!r}: second non-REF allele of the same haplotype inside "
                          f"the ±10 bp window", where(), key=KEY_F11)
             else:
